@@ -428,7 +428,10 @@ def gen_values(rng, tier):
             if dl < 0:
                 continue
             b = bytes([a]) + rng.randbytes(dl)
-            yield "tmpl KSI_PublicationData %s" % hx(N(0x10, kids=[N(0x02, b"\x01"), N(0x04, b)], tm="KSI_PublicationData").enc())
+            if len(b) > 1:
+                yield "tmpl KSI_PublicationData %s imp:%s" % (hx(N(0x10, kids=[N(0x02, b"\x01"), N(0x04, b)], tm="KSI_PublicationData").enc()), hx(b))
+            else:
+                yield "tmpl KSI_PublicationData %s" % hx(N(0x10, kids=[N(0x02, b"\x01"), N(0x04, b)], tm="KSI_PublicationData").enc())
     yield "tmpl KSI_PublicationData %s" % hx(N(0x10, kids=[N(0x02, b"\x01"), N(0x04, b"")], tm="KSI_PublicationData").enc())
     # strings: every lead octet followed by 0..4 continuation octets, then NUL; NUL placement
     for lead in range(256):
@@ -509,7 +512,7 @@ CONFIG.props_module = "KsiVerif.Props.C10"
 CONFIG.required_theorems = [
     "extract_iff_schema", "unknown_critical_rejected", "unknown_noncritical_ignored", "nothing_known_after_last",
     "nothing_known_before_first", "single_valued_once", "exclusive_group0_once", "fixed_order_sorted", "mandatory_present",
-    "tables_are_the_reference_schema", "tables_within_model", "shared_fields_are_lists", "v2_pdu_header_first_mac_last",
+    "tables_are_the_reference_schema", "hash_algorithms_are_the_registry", "tables_within_model", "shared_fields_are_lists", "v2_pdu_header_first_mac_last",
     "pubfile_sections_in_order", "integer_minimal_64bit", "imprint_known_algorithm_and_length", "legacy_id_well_formed",
     "string_well_formed", "string_nonempty", "scalar_values", "composite_value", "templateParse_iff"]
 CONFIG.translators = [tables.gen_templates, tables.gen_hashalgs]
